@@ -40,6 +40,7 @@ pub enum Out<T> {
     Panic(String),
 }
 
+#[allow(dead_code)]
 impl<T> Out<T> {
     pub fn is_ok(&self) -> bool {
         matches!(self, Out::Ok(_))
